@@ -62,13 +62,17 @@ def report_readback(seed):
     the source block and the current table equals the value it reports"""
     viol = []
     rng = random.Random(seed)
-    for f, L, r in ((0.003, 0.1, 0.0005), (7.1, 10.0, 0.001), (rng.choice([0.03, 144.0]), rng.uniform(0.05, 3), 0.0007)):
+    for f, L, r, two in ((0.003, 0.1, 0.0005, False), (7.1, 10.0, 0.001, False),
+                         (rng.choice([0.03, 144.0]), rng.uniform(0.05, 3), 0.0007, False), (14.1, 10.0, 0.001, True)):
         args = ['-f', repr(f), '-w', '4,0,0,%r,0,0,%r,%r' % (-L / 2, L / 2, r), '--excitation-pulse=2']
+        if two:
+            # two fed elements with different voltages: every source block must carry that source's own numbers
+            args += ['-w', '4,%r,0,%r,%r,0,%r,%r' % (L / 4, -L / 2.2, L / 4, L / 2.2, r), '--excitation-pulse=5',
+                     '--excitation-voltage=1', '--excitation-voltage=0.3+0.6j']
         out = io.StringIO()
         with contextlib.redirect_stdout(out):
             m = main(args, return_mininec=True)
         m.compute()
-        s = m.sources[0]
         txt = m.source_data_as_mininec()
         nums = []
         for part in txt.replace('(', ' ').replace(')', ' ').replace(',', ' ').replace('J', ' ').split():
@@ -76,9 +80,14 @@ def report_readback(seed):
                 nums.append(parse(part))
             except ValueError:
                 pass
-        I = m.current[s.idx]
-        exp = [s.idx + 1, s.voltage.real, s.voltage.imag, I.real, I.imag, s.impedance.real, s.impedance.imag, s.power]
-        for nm, g, x in zip(['pulse', 'V.re', 'V.im', 'I.re', 'I.im', 'Z.re', 'Z.im', 'P'], nums, exp):
+        exp = []
+        for s in m.sources:
+            I = m.current[s.idx]
+            Z = s.voltage / I
+            exp += [s.idx + 1, s.voltage.real, s.voltage.imag, I.real, I.imag, Z.real, Z.imag, (s.voltage * np.conj(I)).real / 2]
+        if len(nums) != len(exp):
+            viol.append({'id': 'source-data-block-has-a-different-number-of-fields', 'expected': len(exp), 'observed': len(nums), 'input': args})
+        for nm, g, x in zip(['pulse', 'V.re', 'V.im', 'I.re', 'I.im', 'Z.re', 'Z.im', 'P'] * len(m.sources), nums, exp):
             if abs(g - x) > max(5.0000001e-6 * abs(x), 1.0000001e-6 if nm.startswith('V') else 0):
                 viol.append({'id': 'report-number-differs-from-value:' + nm, 'expected': x, 'observed': g,
                              'input': args})
@@ -99,6 +108,25 @@ def report_readback(seed):
             for nm, g, x in zip(['re', 'im', 'mag'], vals, [v.real, v.imag, abs(v)]):
                 if abs(g - x) > 5.0000001e-6 * abs(x) and abs(x) > 1e-300:
                     viol.append({'id': 'near-field-number-differs:' + nm, 'expected': x, 'observed': g, 'input': args})
+    # loads listing of a distributed load: every line carries the impedance of ITS pulse (a grounded end pulse and a junction
+    # pulse of two different wires differ from their neighbours)
+    args = ['-f', '7.1', '-w', '6,0,0,0,0,0,9,0.001', '-w', '3,0,0,9,2,0,10,0.0004', '--medium=0,0,0', '--excitation-pulse=1',
+            '--skin-effect-conductivity=1e6']
+    out = io.StringIO()
+    with contextlib.redirect_stdout(out):
+        m = main(args, return_mininec=True)
+    m.compute()
+    for ld in m.loads:
+        lines = [l for l in ld.as_mininec(m).split('\n') if 'RESISTANCE' in l]
+        if len(lines) != len(ld.pulses):
+            viol.append({'id': 'loads-listing-has-not-one-line-per-loaded-pulse', 'expected': len(ld.pulses), 'observed': len(lines), 'input': args})
+        for line, pulse in zip(lines, ld.pulses):
+            t = [x.strip() for x in line.split(':')[1].split(',')]
+            z = ld.impedance(m.f, pulse)
+            got = [parse(t[0]), parse(t[1]), parse(t[2])]
+            for nm, g, x in zip(['pulse', 'R', 'X'], got, [pulse.idx + 1, z.real, z.imag]):
+                if abs(g - x) > 5.0000001e-6 * abs(x):
+                    viol.append({'id': 'loads-listing-number-differs:' + nm, 'expected': x, 'observed': g, 'input': args})
     return viol
 
 
@@ -131,7 +159,7 @@ def main_():
         if v['id'] not in seen:
             seen.add(v['id'])
             out['violations'].append(v)
-    out['cases'] += 3
+    out['cases'] += 5
     print(json.dumps(out, default=str))
 
 
